@@ -870,6 +870,7 @@ func (f *FileStore) replace(oldFiles, newFiles []string, updatedFn func(r []TSMF
 
 					// Rename the TSM file used by this reader
 					tempPath := fmt.Sprintf("%s.%s", file.Path(), TmpTSMFileExtension)
+					verifPoint("replace.inuse", f.dir)
 					if err := file.Rename(tempPath); err != nil {
 						return err
 					}
